@@ -2477,9 +2477,10 @@ func (r *stack) pop() (slice any, ok bool) {
 	if r.isFIFO() {
 		idx = 1
 		slice = (*r)[idx]
-		pres := (*r)[idx+1:]
-		(*r) = (*r)[:idx]
-		*r = append(*r, pres...)
+		// a single assignment: callers check emptiness
+		// before they take the lock and must never see
+		// the receiver shorter than it is.
+		*r = append((*r)[:idx], (*r)[idx+1:]...)
 	} else {
 		idx = len(*r) - 1
 		slice = (*r)[idx]
